@@ -152,12 +152,22 @@ impl<'ast> Visit<'ast> for Consts {
     fn visit_item_const(&mut self, c: &'ast syn::ItemConst) {
         self.0.push((c.ident.to_string(), (*c.expr).clone()));
     }
+    fn visit_impl_item_const(&mut self, c: &'ast syn::ImplItemConst) {
+        self.0.push((c.ident.to_string(), c.expr.clone()));
+    }
+    fn visit_item_mod(&mut self, m: &'ast syn::ItemMod) {
+        if !crate::inventory::is_cfg_test(&m.attrs) {
+            syn::visit::visit_item_mod(self, m);
+        }
+    }
 }
 
 pub struct Process {
     pub cont: String,
     pub done: String,
     pub failure: Step,
+    /// `[debug_]assert!(D <op> D)` statements on the transport-failure path (obligations: GenPoll.failure_asserts_hold)
+    pub failure_asserts: Vec<(Dur, String, Dur)>,
     pub response_fn: String,
     pub response_types: Vec<String>,
     pub selector: String,
@@ -173,7 +183,7 @@ fn step(cx: &Ctx, env: &Env, cont: &str, e: &syn::Expr) -> R<(String, Step)> {
     }
 }
 
-fn process(f: &syn::ImplItemFn) -> R<Process> {
+fn process(f: &syn::ImplItemFn, file: &syn::File) -> R<Process> {
     let item = "DeviceAccessTokenRequest::process_response";
     // parameters: the Duration one is <cur>, the other <res>
     let mut cur = None;
@@ -193,8 +203,16 @@ fn process(f: &syn::ImplItemFn) -> R<Process> {
         (Some(c), Some(r), 3) => (c, r),
         _ => return fail(FILE, item, "parameters `(&self, <res>: Result<..>, <cur>: Duration)`"),
     };
+    // named constants: those of the function's own blocks first, then every `const` of the file (module level, impl level)
     let mut cs = Consts(vec![]);
     cs.visit_block(&f.block);
+    let mut fc = Consts(vec![]);
+    fc.visit_file(file);
+    for c in fc.0 {
+        if !cs.0.iter().any(|(n, _)| *n == c.0) {
+            cs.0.push(c);
+        }
+    }
     let cx = Ctx { item, cur, consts: cs.0 };
     let stmts = &f.block.stmts;
     let shape1 = "first statement `let H = match <res> { Ok(x) => x, Err(_) => { .. return <..>::<Variant>(<duration>); } };`";
@@ -210,6 +228,7 @@ fn process(f: &syn::ImplItemFn) -> R<Process> {
         _ => return fail(FILE, item, shape1),
     };
     let mut failure: Option<(String, Step)> = None;
+    let mut failure_asserts: Vec<(Dur, String, Dur)> = Vec::new();
     let mut ok_seen = false;
     for arm in &m.arms {
         if arm.guard.is_some() {
@@ -233,6 +252,20 @@ fn process(f: &syn::ImplItemFn) -> R<Process> {
                 for (k, s) in body.iter().enumerate() {
                     match s {
                         syn::Stmt::Item(syn::Item::Const(_)) => {}
+                        // an assertion on the way: recorded, and proved never to fire (for all intervals and ceilings)
+                        syn::Stmt::Macro(mc) if mc.mac.path.is_ident("debug_assert") || mc.mac.path.is_ident("assert") => {
+                            let parser = syn::punctuated::Punctuated::<syn::Expr, syn::Token![,]>::parse_terminated;
+                            let args: Vec<syn::Expr> = match mc.mac.parse_body_with(parser) {
+                                Ok(a) => a.into_iter().collect(),
+                                Err(_) => return fail(FILE, item, "`[debug_]assert!(<duration> <op> <duration>)`"),
+                            };
+                            match args.first().map(|a| strip(a)) {
+                                Some(syn::Expr::Binary(b)) if matches!(b.op, syn::BinOp::Ge(_) | syn::BinOp::Le(_) | syn::BinOp::Gt(_) | syn::BinOp::Lt(_) | syn::BinOp::Eq(_) | syn::BinOp::Ne(_)) => {
+                                    failure_asserts.push((dur(&cx, &env, &b.left)?, canon(&b.op), dur(&cx, &env, &b.right)?));
+                                }
+                                _ => return fail(FILE, item, format!("`[debug_]assert!(<duration> <op> <duration>)`, found `{}`", canon(&mc.mac))),
+                            }
+                        }
                         syn::Stmt::Local(l) => match plain_let(l) {
                             Some((nm, false, init)) => env.bind(&nm, init),
                             _ => return fail(FILE, item, format!("`let y = <duration>;` in the `Err(_)` arm, found `{}`", canon(l))),
@@ -369,7 +402,7 @@ fn process(f: &syn::ImplItemFn) -> R<Process> {
         _ => return fail(FILE, item, shape2),
     };
     arms.sort_by(|a, b| a.0.cmp(&b.0));
-    Ok(Process { cont, done, failure, response_fn, response_types, selector, arms, other })
+    Ok(Process { cont, done, failure, failure_asserts, response_fn, response_types, selector, arms, other })
 }
 
 // ---------------------------------------------------------------------------------------------------------
@@ -377,7 +410,9 @@ fn process(f: &syn::ImplItemFn) -> R<Process> {
 
 pub enum LoopStmt {
     Bind(String, String),
-    BreakIf { lhs: String, op: String, rhs: String, result: String },
+    /// `if lhs op rhs { break <ctor>(<payload>) }`; of the payload only the paths it mentions are kept (which error
+    /// type, which error code), not its message text; private helper calls in it are inlined first
+    BreakIf { lhs: String, op: String, rhs: String, ctor: String, paths: Vec<String> },
     Exchange { calls: Vec<String>, interval: String, arms: Vec<(String, String)> },
     Call(String, Vec<String>),
 }
@@ -391,13 +426,13 @@ pub struct PollLoop {
 }
 
 /// strips `.await`, noting the callee
-fn unawait<'a>(e: &'a syn::Expr, awaits: &mut Vec<String>) -> &'a syn::Expr {
+fn unawait<'a>(env: &Env, e: &'a syn::Expr, awaits: &mut Vec<String>) -> &'a syn::Expr {
     if let syn::Expr::Await(a) = strip(e) {
         let inner = strip(&a.base);
         let callee = match inner {
-            syn::Expr::Call(c) => canon(&c.func),
-            syn::Expr::MethodCall(m) => format!("{}.{}", canon(&m.receiver), m.method),
-            other => canon(other),
+            syn::Expr::Call(c) => canon(&env.resolve(&c.func)),
+            syn::Expr::MethodCall(m) => format!("{}.{}", canon(&env.resolve(&m.receiver)), m.method),
+            other => canon(&env.resolve(other)),
         };
         awaits.push(callee);
         return inner;
@@ -405,7 +440,7 @@ fn unawait<'a>(e: &'a syn::Expr, awaits: &mut Vec<String>) -> &'a syn::Expr {
     strip(e)
 }
 
-fn poll_loop(name: &str, f: &syn::ImplItemFn, cont: &str, done: &str) -> R<PollLoop> {
+fn poll_loop(name: &str, f: &syn::ImplItemFn, cont: &str, done: &str, helpers: &std::collections::BTreeMap<String, Helper>) -> R<PollLoop> {
     let item = format!("{TY}::{name}");
     let item = item.as_str();
     // body or Box::pin(async move { body })
@@ -426,6 +461,10 @@ fn poll_loop(name: &str, f: &syn::ImplItemFn, cont: &str, done: &str) -> R<PollL
         return fail(FILE, item, "a body ending in `loop { .. }`");
     }
     let mut env = Env::default();
+    // parameters are written p0, p1, .. in order (their names are the caller-facing documentation, not behaviour)
+    for (k, p) in param_names(&f.sig).iter().enumerate() {
+        env.rename(p, &format!("p{k}"));
+    }
     let mut counter = 0usize;
     let mut fresh = |env: &mut Env, nm: &str| -> String {
         let l = format!("l{counter}");
@@ -453,11 +492,20 @@ fn poll_loop(name: &str, f: &syn::ImplItemFn, cont: &str, done: &str) -> R<PollL
     };
     let mut awaits = Vec::new();
     let mut body = Vec::new();
-    for s in &lp.body.stmts {
+    for (k, s) in lp.body.stmts.iter().enumerate() {
         match s {
+            // `let req = self.prepare_request()?;` pulled out of the exchange that follows immediately: a name (the
+            // order of evaluation is the one of the nested call)
+            syn::Stmt::Local(l)
+                if matches!(lp.body.stmts.get(k + 1), Some(syn::Stmt::Expr(syn::Expr::Match(_), _)))
+                    && plain_let(l).map(|(_, m, init)| !m && !canon(init).contains("time_fn")).unwrap_or(false) =>
+            {
+                let (nm, _, init) = plain_let(l).unwrap();
+                env.bind(&nm, init);
+            }
             syn::Stmt::Local(l) => match plain_let(l) {
                 Some((nm, false, init)) => {
-                    let e = canon(&env.resolve(unawait(init, &mut awaits)));
+                    let e = canon(&env.resolve(unawait(&env, init, &mut awaits)));
                     let v = fresh(&mut env, &nm);
                     body.push(LoopStmt::Bind(v, e));
                 }
@@ -483,17 +531,24 @@ fn poll_loop(name: &str, f: &syn::ImplItemFn, cont: &str, done: &str) -> R<PollL
                         std::mem::swap(&mut lhs, &mut rhs);
                         op = if op == "<" { ">".into() } else { ">=".into() };
                     }
-                    body.push(LoopStmt::BreakIf { lhs, op, rhs, result: canon(&env.resolve(brk)) });
+                    let mut payload = env.resolve(brk);
+                    syn::visit_mut::VisitMut::visit_expr_mut(&mut Inliner { helpers, ty: Some(TY), depth: 4 }, &mut payload);
+                    let (ctor, arg) = match strip(&payload) {
+                        syn::Expr::Call(c) if c.args.len() == 1 && ident_of(&c.func).is_some() => (ident_of(&c.func).unwrap(), c.args[0].clone()),
+                        _ => return fail(FILE, item, format!("`break Ok(..)` / `break Err(..)`, found `break {}`", canon(&payload))),
+                    };
+                    body.push(LoopStmt::BreakIf { lhs, op, rhs, ctor, paths: paths_in(&arg, TY) });
                 }
                 syn::Expr::Match(m) => {
                     // self.process_response(C(self.prepare_request()?)[.await], x)
                     let shape = "`match self.process_response(<client>.call(self.prepare_request()?)[.await], <interval>) { <Cont>(y) => <interval> = y, <Done>(r) => break r }`";
-                    let pc = match strip(&m.expr) {
-                        syn::Expr::MethodCall(pc) if pc.args.len() == 2 => pc,
+                    let scrutinee = env.resolve(&m.expr);
+                    let pc = match strip(&scrutinee) {
+                        syn::Expr::MethodCall(pc) if pc.args.len() == 2 => pc.clone(),
                         _ => return fail(FILE, item, shape),
                     };
                     let mut calls = Vec::new();
-                    let inner = unawait(&pc.args[0], &mut awaits);
+                    let inner = unawait(&env, &pc.args[0], &mut awaits);
                     match inner {
                         syn::Expr::MethodCall(c) if c.args.len() == 1 => {
                             calls.push(canon(&env.resolve(&c.args[0])));
@@ -538,9 +593,9 @@ fn poll_loop(name: &str, f: &syn::ImplItemFn, cont: &str, done: &str) -> R<PollL
                     body.push(LoopStmt::Exchange { calls, interval, arms });
                 }
                 _ => {
-                    let inner = unawait(e, &mut awaits);
+                    let inner = unawait(&env, e, &mut awaits);
                     match inner {
-                        syn::Expr::Call(c) => body.push(LoopStmt::Call(canon(&c.func), c.args.iter().map(|a| canon(&env.resolve(a))).collect())),
+                        syn::Expr::Call(c) => body.push(LoopStmt::Call(canon(&env.resolve(&c.func)), c.args.iter().map(|a| canon(&env.resolve(a))).collect())),
                         _ => return fail(FILE, item, format!("a statement of the listed loop grammar, found `{}`", canon(e))),
                     }
                 }
@@ -601,10 +656,12 @@ inductive Step
   | finish (result : String)
 deriving DecidableEq, Repr
 
-/-- one statement of a poll loop (local variables renamed l0, l1, .. in order of their `let`; `.await` dropped) -/
+/-- one statement of a poll loop (parameters written p0, p1, .., local variables l0, l1, .. in order of their `let`;
+`.await` dropped).  `breakIf lhs op rhs ctor paths` = `if lhs op rhs { break ctor(<payload>) }` where `paths` are the
+paths (`A::B`) the payload mentions, private helper functions inlined; literals (message texts) are not kept. -/
 inductive LoopStmt
   | bind (var e : String)
-  | breakIf (lhs op rhs result : String)
+  | breakIf (lhs op rhs ctor : String) (paths : List String)
   | exchange (calls : List String) (interval : String) (arms : List (String × String))
   | call (f : String) (args : List String)
 deriving DecidableEq, Repr
@@ -626,11 +683,12 @@ pub fn extract(srcs: &Sources) -> R<String> {
         Some(f) => f,
         None => return fail(FILE, "DeviceAccessTokenRequest::process_response", "the function to exist"),
     };
-    let p = process(pr)?;
+    let p = process(pr, dc)?;
+    let helpers = helpers_of(dc, Some(TY), &["prepare_request", "process_response", "compute_timeout"]);
     let mut loops = Vec::new();
     for name in ["request", "request_async"] {
         match impl_fn(dc, TY, name) {
-            Some(f) => loops.push(poll_loop(name, f, &p.cont, &p.done)?),
+            Some(f) => loops.push(poll_loop(name, f, &p.cont, &p.done, &helpers)?),
             None => return fail(FILE, &format!("{TY}::{name}"), "the function to exist"),
         }
     }
@@ -643,6 +701,10 @@ pub fn extract(srcs: &Sources) -> R<String> {
         lean::s(&p.done)
     ));
     o.push_str(&format!("/-- the HTTP client returned `Err(_)` -/\ndef transportFailure : Step := {}\n\n", st(&p.failure)));
+    o.push_str(&format!(
+        "/-- `[debug_]assert!(a <op> b)` statements on the transport-failure path -/\ndef transportFailureAsserts : List (DurExpr × String × DurExpr) := {}\n\n",
+        lean::list(&p.failure_asserts.iter().map(|(a, op, b)| format!("({}, {}, {})", d(a), lean::s(op), d(b))).collect::<Vec<_>>())
+    ));
     o.push_str(&format!(
         "/-- the reply is classified by `{}::<{}>` -/\ndef responseFn : String := {}\ndef responseTypeArgs : List String := {}\n\n",
         p.response_fn,
@@ -671,7 +733,7 @@ pub fn extract(srcs: &Sources) -> R<String> {
                         .iter()
                         .map(|s| match s {
                             LoopStmt::Bind(v, e) => format!(".bind {} {}", lean::s(v), lean::s(e)),
-                            LoopStmt::BreakIf { lhs, op, rhs, result } => format!(".breakIf {} {} {} {}", lean::s(lhs), lean::s(op), lean::s(rhs), lean::s(result)),
+                            LoopStmt::BreakIf { lhs, op, rhs, ctor, paths } => format!(".breakIf {} {} {} {} {}", lean::s(lhs), lean::s(op), lean::s(rhs), lean::s(ctor), lean::strs(paths)),
                             LoopStmt::Exchange { calls, interval, arms } => format!(
                                 ".exchange {} {} {}",
                                 lean::strs(calls),
